@@ -121,6 +121,17 @@ def dt_ok(wall, off_min):
     return WALL_LO <= wall <= WALL_HI and -1440 < off_min < 1440
 
 
+def loc_ok(loc):
+    """offset of the process-local time zone in minutes: part of the environment, any value"""
+    return -1440 < loc < 1440
+
+
+def set_env(loc):
+    """symbolic run: the shim's local zone; real run (replay): the process zone was set through TZ/tzset by replay()"""
+    if not REAL:
+        S.set_local(loc * 60 * US)
+
+
 def finding_key(uses, off_min, naive, naive2=None):
     """class of a listed finding; `uses` = features of the law: 'utc', 'timestamp', 'eq'"""
     if 'timestamp' in uses and naive:
@@ -172,50 +183,58 @@ def ts_construct(s: int, us: int, off_min: int) -> bool:
     return H.done(is_dt(d) and off_us(d) == off_min * 60 * US and eq_us(inst(d), s * US + us))
 
 
-def ts_inverse(wall: int, off_min: int, naive: bool) -> bool:
+def ts_inverse(wall: int, off_min: int, naive: bool, loc: int = 0) -> bool:
     """
     pre: dt_ok(wall, off_min) and part_ok(off_min, naive)
     pre: finding_key(('timestamp',), off_min, naive) not in KNOWN
-    pre: H.fresh(wall, off_min, naive)
+    pre: loc_ok(loc)
+    pre: H.fresh(wall, off_min, naive, loc)
     post: _
     """
+    set_env(loc)
     d = mk_dt(wall, off_min, naive)
     r = yq.ev('datetime($d.timestamp, $d.offset)', d=d)
     return H.done(same_dt(r, wall, off_min, naive))
 
 
-def utc_same_instant(wall: int, off_min: int, naive: bool) -> bool:
+def utc_same_instant(wall: int, off_min: int, naive: bool, loc: int = 0) -> bool:
     """
     pre: dt_ok(wall, off_min) and part_ok(off_min, naive)
     pre: finding_key(('utc',), off_min, naive) not in KNOWN
-    pre: H.fresh(wall, off_min, naive)
+    pre: loc_ok(loc)
+    pre: H.fresh(wall, off_min, naive, loc)
     post: _
     """
+    set_env(loc)
     d = mk_dt(wall, off_min, naive)
     u = yq.ev('$d.utc', d=d)
     exp_inst = wall - (0 if naive else off_min * 60 * US)
     return H.done(is_dt(u) and off_us(u) == 0 and inst(u) == exp_inst)
 
 
-def timestamp_value(wall: int, off_min: int, naive: bool) -> bool:
+def timestamp_value(wall: int, off_min: int, naive: bool, loc: int = 0) -> bool:
     """
     pre: dt_ok(wall, off_min) and part_ok(off_min, naive)
     pre: finding_key(('timestamp',), off_min, naive) not in KNOWN
-    pre: H.fresh(wall, off_min, naive)
+    pre: loc_ok(loc)
+    pre: H.fresh(wall, off_min, naive, loc)
     post: _
     """
+    set_env(loc)
     d = mk_dt(wall, off_min, naive)
     t = yq.ev('$d.timestamp', d=d)
     exp_inst = wall - (0 if naive else off_min * 60 * US)
     return H.done(eq_num(t * US, exp_inst) if REAL else t * US == exp_inst)
 
 
-def offset_value(wall: int, off_min: int, naive: bool) -> bool:
+def offset_value(wall: int, off_min: int, naive: bool, loc: int = 0) -> bool:
     """
     pre: dt_ok(wall, off_min)
-    pre: H.fresh(wall, off_min, naive)
+    pre: loc_ok(loc)
+    pre: H.fresh(wall, off_min, naive, loc)
     post: _
     """
+    set_env(loc)
     d = mk_dt(wall, off_min, naive)
     o = yq.ev('$d.offset', d=d)
     return H.done(is_ts(o) and S.us_of(o) == (0 if naive else off_min * 60 * US))
@@ -224,12 +243,14 @@ def offset_value(wall: int, off_min: int, naive: bool) -> bool:
 ADD_SUB = ['($d + $t) - $t', '($t + $d) - $t', '($d - $t) + $t', '$t + ($d - $t)']
 
 
-def add_sub(wall: int, off_min: int, naive: bool, t: int) -> bool:
+def add_sub(wall: int, off_min: int, naive: bool, t: int, loc: int = 0) -> bool:
     """
     pre: dt_ok(wall, off_min) and WALL_LO <= wall + t <= WALL_HI and WALL_LO <= wall - t <= WALL_HI
-    pre: H.fresh(wall, off_min, naive, t)
+    pre: loc_ok(loc)
+    pre: H.fresh(wall, off_min, naive, t, loc)
     post: _
     """
+    set_env(loc)
     d = mk_dt(wall, off_min, naive)
     ts = mk_ts(t)
     ok = True
@@ -243,12 +264,14 @@ def add_sub(wall: int, off_min: int, naive: bool, t: int) -> bool:
     return H.done(ok)
 
 
-def difference(w1: int, o1: int, n1: bool, w2: int, o2: int, n2: bool) -> bool:
+def difference(w1: int, o1: int, n1: bool, w2: int, o2: int, n2: bool, loc: int = 0) -> bool:
     """
     pre: dt_ok(w1, o1) and dt_ok(w2, o2)
-    pre: H.fresh(w1, o1, n1, w2, o2, n2)
+    pre: loc_ok(loc)
+    pre: H.fresh(w1, o1, n1, w2, o2, n2, loc)
     post: _
     """
+    set_env(loc)
     # a - b is the difference of instants, whatever the two offsets; a naive operand counts as UTC
     a, b = mk_dt(w1, o1, n1), mk_dt(w2, o2, n2)
     r = yq.ev('$a - $b', a=a, b=b)
@@ -263,13 +286,15 @@ CMP = {'<': lambda x, y: x < y, '<=': lambda x, y: x <= y, '>': lambda x, y: x >
 OP = H.P('op', '<')
 
 
-def compare(w1: int, o1: int, n1: bool, w2: int, o2: int, n2: bool) -> bool:
+def compare(w1: int, o1: int, n1: bool, w2: int, o2: int, n2: bool, loc: int = 0) -> bool:
     """
     pre: dt_ok(w1, o1) and dt_ok(w2, o2)
     pre: finding_key(('eq',) if OP in ('=', '!=') else (), o1, n1, n2) not in KNOWN
-    pre: H.fresh(w1, o1, n1, w2, o2, n2)
+    pre: loc_ok(loc)
+    pre: H.fresh(w1, o1, n1, w2, o2, n2, loc)
     post: _
     """
+    set_env(loc)
     a, b = mk_dt(w1, o1, n1), mk_dt(w2, o2, n2)
     got = yq.ev('$a %s $b' % OP, a=a, b=b)
     i1 = w1 - (0 if n1 else o1 * 60 * US)
@@ -277,13 +302,15 @@ def compare(w1: int, o1: int, n1: bool, w2: int, o2: int, n2: bool) -> bool:
     return H.done(isinstance(got, bool) and got == CMP[OP](i1, i2))
 
 
-def order_laws(w1: int, o1: int, n1: bool, w2: int, o2: int, n2: bool) -> bool:
+def order_laws(w1: int, o1: int, n1: bool, w2: int, o2: int, n2: bool, loc: int = 0) -> bool:
     """
     pre: dt_ok(w1, o1) and dt_ok(w2, o2)
     pre: finding_key(('eq',), o1, n1, n2) not in KNOWN
-    pre: H.fresh(w1, o1, n1, w2, o2, n2)
+    pre: loc_ok(loc)
+    pre: H.fresh(w1, o1, n1, w2, o2, n2, loc)
     post: _
     """
+    set_env(loc)
     # the six comparison operators are one total order on instants, consistent with subtraction
     a, b = mk_dt(w1, o1, n1), mk_dt(w2, o2, n2)
     r = {op: yq.ev('$a %s $b' % op, a=a, b=b) for op in CMP}
@@ -295,13 +322,15 @@ def order_laws(w1: int, o1: int, n1: bool, w2: int, o2: int, n2: bool) -> bool:
     return H.done(ok)
 
 
-def utc_laws(wall: int, off_min: int, naive: bool) -> bool:
+def utc_laws(wall: int, off_min: int, naive: bool, loc: int = 0) -> bool:
     """
     pre: dt_ok(wall, off_min) and part_ok(off_min, naive)
     pre: finding_key(('utc', 'timestamp'), off_min, naive) not in KNOWN
-    pre: H.fresh(wall, off_min, naive)
+    pre: loc_ok(loc)
+    pre: H.fresh(wall, off_min, naive, loc)
     post: _
     """
+    set_env(loc)
     d = mk_dt(wall, off_min, naive)
     exp_inst = wall - (0 if naive else off_min * 60 * US)
     uu = yq.ev('$d.utc.utc', d=d)
@@ -313,13 +342,15 @@ def utc_laws(wall: int, off_min: int, naive: bool) -> bool:
     return H.done(ok)
 
 
-def add_assoc(wall: int, off_min: int, naive: bool, t1: int, t2: int) -> bool:
+def add_assoc(wall: int, off_min: int, naive: bool, t1: int, t2: int, loc: int = 0) -> bool:
     """
     pre: dt_ok(wall, off_min) and WALL_LO <= wall + t1 <= WALL_HI and WALL_LO <= wall + t1 + t2 <= WALL_HI
     pre: -TS_RANGE < t1 < TS_RANGE and -TS_RANGE < t2 < TS_RANGE and -TS_RANGE < t1 + t2 < TS_RANGE
-    pre: H.fresh(wall, off_min, naive, t1, t2)
+    pre: loc_ok(loc)
+    pre: H.fresh(wall, off_min, naive, t1, t2, loc)
     post: _
     """
+    set_env(loc)
     d, a, b = mk_dt(wall, off_min, naive), mk_ts(t1), mk_ts(t2)
     x = yq.ev('($d + $a) + $b', d=d, a=a, b=b)
     y = yq.ev('$d + ($a + $b)', d=d, a=a, b=b)
@@ -437,6 +468,96 @@ def calendar_law(wall, off_min, naive):
     return ok
 
 
+# ---- exact laws on REAL datetime/timedelta objects from a boundary corpus (symbolic indices only select; the shim is
+# out of the way): float precision of very long timespans, range ends of the C types
+def real_timespans():
+    TD = datetime.timedelta
+    big = datetime.datetime.max - datetime.datetime.min
+    return [TD(0), TD(microseconds=1), TD(microseconds=-1), TD(days=1, seconds=51945, milliseconds=5), TD(microseconds=29),
+            TD(days=-3, microseconds=1), TD(days=100000, microseconds=1), TD(days=-100000, microseconds=999999),
+            TD(microseconds=2 ** 53 - 1), TD(microseconds=2 ** 53 + 1), TD(microseconds=-(2 ** 53) - 1),
+            TD(microseconds=2 ** 52 + 1), TD(days=104249, microseconds=3), TD(days=365 * 400, seconds=86399, microseconds=999999),
+            big, -big, big - TD(microseconds=1), TD.max, TD.min, TD.max - TD(microseconds=2), TD(days=999999, microseconds=7),
+            TD(days=3652058, seconds=86399, microseconds=999998), TD(hours=3), TD(minutes=-90)]
+
+
+def real_datetimes():
+    from dateutil import tz
+    DT, TD = datetime.datetime, datetime.timedelta
+    utc = tz.tzutc()
+    return [DT(1, 1, 2, tzinfo=utc), DT(1, 1, 2, 0, 0, 0, 1, tzinfo=tz.tzoffset(None, 3600)), DT(9999, 12, 30, 23, 59, 59, 999999, tzinfo=utc),
+            DT(9999, 12, 30, 12, 0, 0, 7, tzinfo=tz.tzoffset(None, -5400)), DT(1970, 1, 1, tzinfo=utc), DT(1, 1, 2, 0, 0, 0, 3),
+            DT(9999, 12, 30, 23, 59, 59, 999999), DT(2000, 2, 29, 23, 59, 59, 999999, tzinfo=tz.tzoffset(None, 19800)),
+            DT(1583, 1, 1, 0, 0, 0, 1, tzinfo=utc), DT(5000, 6, 15, 1, 2, 3, 456789)]
+
+
+def exact_us(t):
+    return (t.days * 86400 + t.seconds) * US + t.microseconds
+
+
+def real_ts_law(x):
+    from fractions import Fraction
+    us = exact_us(x)
+    got = yq.ev('$x.microseconds', x=x)
+    ok = type(got) is int and got == us
+    back = yq.ev('timespan(microseconds => $x.microseconds)', x=x)
+    ok = ok and back == x and yq.ev('timespan(microseconds => $x.microseconds) = $x', x=x) is True
+    for name, unit in (('milliseconds', 10 ** 3), ('seconds', 10 ** 6), ('minutes', 6 * 10 ** 7), ('hours', 36 * 10 ** 8),
+                       ('days', 864 * 10 ** 8)):
+        v = yq.ev('$x.' + name, x=x)
+        exact = Fraction(us, unit)
+        ok = ok and isinstance(v, float) and abs(Fraction(v) - exact) <= abs(exact) * Fraction(1, 2 ** 51)
+    if abs(us) < 4 * 10 ** 19:            # x + x stays in the range of the C type
+        ok = ok and yq.ev('-(-$x) = $x', x=x) is True and yq.ev('($x + $x) - $x = $x', x=x) is True
+    return ok
+
+
+def real_dt_law(d, t):
+    DT = datetime.datetime
+    wall = d.replace(tzinfo=None)
+    lo, hi = DT.min + datetime.timedelta(days=2), DT.max - datetime.timedelta(days=2)
+    if not (lo - wall <= t <= hi - wall):
+        return True                       # the sum leaves the year range: outside the claim
+    r = yq.ev('($d + $t) - $t', d=d, t=t)
+    ok = r.replace(tzinfo=None) == wall and r.utcoffset() == (d.utcoffset() or datetime.timedelta(0))
+    if lo - wall <= -t <= hi - wall:
+        ok = ok and yq.ev('$d - ($d - $t)', d=d, t=t) == t
+    diff = yq.ev('($d + $t) - $d', d=d, t=t)
+    ok = ok and diff == t and yq.ev('(($d + $t) - $d).microseconds', d=d, t=t) == exact_us(t)
+    ok = ok and yq.ev('timespan(microseconds => (($d + $t) - $d).microseconds) = $t', d=d, t=t) is True
+    return ok
+
+
+def real_ts_sel(i: int) -> bool:
+    """
+    pre: 0 <= i < len(real_timespans())
+    post: _
+    """
+    with H.NoTracing():
+        S.uninstall()
+        try:
+            ok = real_ts_law(real_timespans()[int(i)])
+        finally:
+            if not REAL:
+                S.install()
+    return H.done(ok)
+
+
+def real_dt_sel(i: int, j: int) -> bool:
+    """
+    pre: 0 <= i < len(real_datetimes()) and 0 <= j < len(real_timespans())
+    post: _
+    """
+    with H.NoTracing():
+        S.uninstall()
+        try:
+            ok = real_dt_law(real_datetimes()[int(i)], real_timespans()[int(j)])
+        finally:
+            if not REAL:
+                S.install()
+    return H.done(ok)
+
+
 # ------------------------------------------------------------------ probes of listed findings
 def probe_utc_keeps_zone(wall: int, off_min: int) -> bool:
     """
@@ -511,6 +632,12 @@ def conditions(tier, seed):
             add('calendar_sel[%d]' % jlo, 'calendar_sel', 'selection: %d wall clocks x offsets #%d,#%d of the large grid x '
                 'naive/aware, real datetimes; each path is one concrete evaluation' % (len(GRID_WALL) + 20, jlo, jlo + 1),
                 timeout=600, grid='large', jlo=jlo, jhi=jlo + 2)
+    add('real_ts_sel', 'real_ts_sel', 'selection: %d REAL timedelta objects (0, +-1us, 2**53+-1 us, centuries + 1us, '
+        'timedelta.max/min, datetime.max - datetime.min ...): exact microseconds, exact round trip, unit properties within '
+        '2**-51 relative of the exact rational; each path is one concrete evaluation' % len(real_timespans()), timeout=120)
+    add('real_dt_sel', 'real_dt_sel', 'selection: %d REAL datetimes (year 1 / 9999 ends, naive and aware) x %d REAL timedeltas: '
+        '(d+t)-t = d, (d+t)-d = t exactly; each path is one concrete evaluation' % (len(real_datetimes()), len(real_timespans())),
+        timeout=200 if q else 600)
     for key, (func, what) in sorted(PROBES.items()):
         if key in KNOWN:
             out.append({'name': 'probe[%s]' % key.split('/')[1], 'func': func, 'timeout': 60, 'kind': 'probe',
@@ -600,6 +727,30 @@ def validate():
     both('ctor', lambda: datetime.datetime(2006, 11, 21, 16, 30, 2, 123, tz.tzoffset(None, 10800)),
          lambda: S.SDT(2006, 11, 21, 16, 30, 2, 123, S.TZShim.tzoffset(None, 10800.0)))
 
+    # 1b. the model of the process-local zone (naive.astimezone, fromtimestamp without zone) against the C library
+    import os
+    import time
+    old_tz = os.environ.get('TZ')
+    try:
+        for name, minutes in (('IST-5:30', 330), ('XYZ+3:15', -195)):
+            os.environ['TZ'] = name
+            time.tzset()
+            S.set_local(minutes * 60 * US)
+            for w in walls[:7]:
+                r, s = real_dt(w, None), shim_dt(w, None)
+                both('naive.astimezone(utc) under TZ=%s' % name, lambda: r.astimezone(tz.tzutc()), lambda: s.astimezone(tz.tzutc()))
+                both('naive.astimezone(+90) under TZ=%s' % name, lambda: r.astimezone(tz.tzoffset(None, 5400)),
+                     lambda: s.astimezone(tz.tzoffset(None, 5400)))
+            both('fromtimestamp local under TZ=%s' % name, lambda: datetime.datetime.fromtimestamp(1164126600),
+                 lambda: S.SDT.fromtimestamp(1164126600))
+    finally:
+        if old_tz is None:
+            os.environ.pop('TZ', None)
+        else:
+            os.environ['TZ'] = old_tz
+        time.tzset()
+        S.set_local(0)
+
     # 2. the yaql functions on shim values against the same functions on real values (includes the repo's test inputs)
     exprs = ['$d.timestamp', '$d.utc', '$d.offset', '$d + $t', '$t + $d', '$d - $t', '$d - $e', '$d < $e', '$d <= $e',
              '$d > $e', '$d >= $e', '$d = $e', '$d != $e', '$d.date', '$d.time', '$d.year', '$d.weekday',
@@ -643,6 +794,13 @@ def replay(cond, args):
     assert me.REAL
     fn = getattr(me, cond['func'])
     vals = dict(args)
+    if vals.get('loc'):
+        # the counterexample names a process-local zone: this fresh replay process gets exactly that zone
+        import os
+        import time
+        loc = vals['loc']
+        os.environ['TZ'] = 'LOC%s%d:%02d' % ('-' if loc > 0 else '+', abs(loc) // 60, abs(loc) % 60)
+        time.tzset()
     p = cond.get('param') or {}
     try:
         ok = fn(**vals)
@@ -666,6 +824,16 @@ def replay(cond, args):
         if f == 'utc_laws' and key is None and naive:
             key = 'C20/naive-equality'
     what = describe(f, p, vals, err)
+    if vals.get('loc'):
+        what += ' [process-local zone UTC%+d min (TZ=%s)]' % (vals['loc'], os.environ['TZ'])
+    if f == 'real_ts_sel':
+        x = real_timespans()[vals['i']]
+        what = 'real timespan %r: .microseconds -> %r (exact %d); timespan(microseconds => x.microseconds) = x -> %r' % (
+            x, yq.outcome('$x.microseconds', x=x), exact_us(x), yq.outcome('timespan(microseconds => $x.microseconds) = $x', x=x))
+    if f == 'real_dt_sel':
+        d, t = real_datetimes()[vals['i']], real_timespans()[vals['j']]
+        what = 'real d=%r t=%r: ($d + $t) - $d -> %r; (($d + $t) - $d).microseconds -> %r (exact %d)' % (
+            d, t, yq.outcome('($d + $t) - $d', d=d, t=t), yq.outcome('(($d + $t) - $d).microseconds', d=d, t=t), exact_us(t))
     return {'reproduced': True, 'key': key or 'C20/%s' % f, 'what': what}
 
 
